@@ -627,10 +627,25 @@ Section Files.
       rewrite E.
       assert (E2 : match origin with [] => false | _ :: _ => negb (is_domain_name origin) end = false).
       { destruct origin; [reflexivity|]. now rewrite Hd. }
-      rewrite E2.
-      eapply zone_refines; eauto.
-      - repeat split; cbn; auto; try (destruct default; reflexivity); try discriminate.
-      - exact Ho. }
+      rewrite E2. cbv zeta.
+      match goal with |- (if failed ?X then _ else _) = _ =>
+        assert (Z : X = map ERec recs) end.
+      { eapply zone_refines; eauto.
+        - repeat split; cbn; auto; try (destruct default; reflexivity); try discriminate.
+        - exact Ho. }
+      rewrite Z.
+      assert (F : failed (map ERec recs) = false).
+      { clear. induction recs as [|r rs IHr]; [reflexivity|exact IHr]. }
+      rewrite F.
+      (* tokens that realize a skeleton carry no lexer error *)
+      assert (L : lex_err_tok toks = None).
+      { assert (A : Forall (fun t => t_err t = false) toks).
+        { clear - HF. induction HF as [|t k ts ks Hr _ IHf]; constructor; [|exact IHf].
+          destruct Hr as [_ [Hr _]]. exact Hr. }
+        unfold lex_err_tok. destruct (rev toks) as [|u r] eqn:R; [reflexivity|].
+        assert (Hin : In u toks) by (apply in_rev; rewrite R; now left).
+        rewrite Forall_forall in A. now rewrite (A u Hin). }
+      rewrite L. reflexivity. }
     destruct d as [|d']; cbn [Zone.run_d]; apply K.
   Qed.
 End Files.
